@@ -208,6 +208,14 @@ example :
     GenKway.merge (fun (e : E) => e.key) (fun e => e.tomb) Kway.less KwayTie.isort a1 true [[a1, b2], [a1']] = [a1', b2] := by
   decide
 
+/-- the code that chooses the inputs of a compaction (`levelManager.overlapLN`, translated on every run; `overlapL0` calls it
+    with the range of the oldest L0 table): the chosen tables are a sublist of the level's tables, in the level's order —
+    one of the choices of inputs `C09_preserves` and `C09_code_merge_then_discard` quantify over -/
+theorem C09_code_inputs_are_a_choice {τ : Type} (startsBeforeEnd endsAfterStart : τ → Bool) (tables : List τ) :
+    GenLevel.overlapLN startsBeforeEnd endsAfterStart tables = tables.filter (fun t => startsBeforeEnd t && endsAfterStart t) ∧
+    (GenLevel.overlapLN startsBeforeEnd endsAfterStart tables).Sublist tables :=
+  ⟨LevelTie.overlapLN_eq _ _ _, LevelTie.overlapLN_sublist _ _ _⟩
+
 #print axioms C09_preserves
 #print axioms C09_only_shadowed
 #print axioms C09_no_invention
@@ -219,6 +227,7 @@ example :
 #print axioms C09_code_compaction_order
 #print axioms C09_code_compaction_order_L0
 #print axioms C09_code_merge_versions
+#print axioms C09_code_inputs_are_a_choice
 #print axioms C09_code_merge_without_tombstones
 #print axioms C09_code_merge_then_discard
 end Props
